@@ -40,7 +40,9 @@ func init() {
 	}
 }
 
-const canaryLen = 16
+// spare capacity behind every argument: large enough that an append of a
+// whole key or signature into the caller's backing array stays inside it
+const canaryLen = 80
 
 // guarded argument: a view into a backing array with canary bytes after
 // (spare capacity) and before it.
